@@ -15,39 +15,39 @@ import (
 
 // Machine is the table-driven front-end extracted from one receiver type.
 type Machine struct {
-	Name     string // e.g. "oj.Parser"
-	prog     *Program
-	pkg      *packages.Package
-	in       *Interp
-	recvType *types.Named
-	work     *ast.FuncDecl
-	workFn   *types.Func
-	recvObj  types.Object
-	bufVar   types.Object
-	lastVar  types.Object
-	offVar   types.Object
-	loop     *ast.ForStmt
-	prologue []ast.Stmt
-	tail     []ast.Stmt
-	modeFld  string
-	sw       *ast.SwitchStmt
-	carried  map[any]string // function-level locals kept between bytes
-	tables   map[string]string // table value -> constant name
-	tableLen map[string]int
-	caseCodes map[int64]string // action code -> constant name
-	roots    map[string]*types.Func
-	belowC   map[string][]absStack
-	belowKeys map[string]bool
-	newBelow bool
-	tableVals []string
-	seedBytes []int
+	Name         string // e.g. "oj.Parser"
+	prog         *Program
+	pkg          *packages.Package
+	in           *Interp
+	recvType     *types.Named
+	work         *ast.FuncDecl
+	workFn       *types.Func
+	recvObj      types.Object
+	bufVar       types.Object
+	lastVar      types.Object
+	offVar       types.Object
+	loop         *ast.ForStmt
+	prologue     []ast.Stmt
+	tail         []ast.Stmt
+	modeFld      string
+	sw           *ast.SwitchStmt
+	carried      map[any]string    // function-level locals kept between bytes
+	tables       map[string]string // table value -> constant name
+	tableLen     map[string]int
+	caseCodes    map[int64]string // action code -> constant name
+	roots        map[string]*types.Func
+	belowC       map[string][]absStack
+	belowKeys    map[string]bool
+	newBelow     bool
+	tableVals    []string
+	seedBytes    []int
 	namedResults []types.Object
-	posFields map[string]bool
-	bigStrings []string
-	mu        sync.Mutex
+	posFields    map[string]bool
+	bigStrings   []string
+	mu           sync.Mutex
 	pendingBelow []pushRecTag
-	live      map[string]map[string]bool // field -> mode table -> may be read before written (live.go); nil: no normalisation
-	liveModes []string
+	live         map[string]map[string]bool // field -> mode table -> may be read before written (live.go); nil: no normalisation
+	liveModes    []string
 }
 
 type ConsItem struct {
@@ -806,7 +806,6 @@ type workCollector struct {
 	m      *Machine
 	onCall func(s *State, args []Val)
 }
-
 
 // enterWork runs the dispatch function's prologue on a state captured at a
 // call site, giving the state at the head of the loop.
